@@ -609,6 +609,12 @@ func pureExternal(name string) bool {
 	case strings.HasPrefix(name, "github.com/google/uuid."):
 		return true
 	}
+	// read-only helpers of the slices package (instantiations carry their type arguments in the name)
+	for _, ro := range []string{"slices.Contains", "slices.ContainsFunc", "slices.Index", "slices.IndexFunc", "slices.Equal", "slices.Clone", "slices.Max", "slices.Min", "slices.BinarySearch", "slices.Compare"} {
+		if name == ro || strings.HasPrefix(name, ro+"[") {
+			return true
+		}
+	}
 	return false
 }
 
